@@ -336,17 +336,32 @@ func (n *WorkflowNode) addDependencyRelation(fromNodeKey string, inputs []*Field
 }
 
 func (n *WorkflowNode) checkAndAddMappedPath(paths []FieldPath) error {
-	if v, ok := n.mappedFieldPath[""]; ok {
-		if _, ok = v.(struct{}); ok {
+	// mappedFieldPath[""] is struct{}{} once the entire input has been mapped, otherwise a tree of the mapped
+	// target paths whose leaves (terminal paths) are struct{}{}. Two targets conflict when they are equal or
+	// one is a prefix of the other, whatever the order in which they were declared.
+	root, ok := n.mappedFieldPath[""]
+	if ok {
+		if _, whole := root.(struct{}); whole {
 			return fmt.Errorf("entire output has already been mapped for node: %s", n.key)
 		}
-	} else {
-		if len(paths) == 0 {
-			n.mappedFieldPath[""] = struct{}{}
-			return nil
-		} else {
-			n.mappedFieldPath[""] = map[string]any{}
+	}
+
+	entire := len(paths) == 0
+	for _, targetPath := range paths {
+		if len(targetPath) == 0 {
+			entire = true
 		}
+	}
+	if entire {
+		if len(paths) > 1 || (ok && len(root.(map[string]any)) > 0) {
+			return fmt.Errorf("two terminal field paths conflict for node %s: the entire input is mapped together with other field paths", n.key)
+		}
+		n.mappedFieldPath[""] = struct{}{}
+		return nil
+	}
+
+	if !ok {
+		n.mappedFieldPath[""] = map[string]any{}
 	}
 
 	for _, targetPath := range paths {
@@ -354,17 +369,23 @@ func (n *WorkflowNode) checkAndAddMappedPath(paths []FieldPath) error {
 		var traversed FieldPath
 		for i, path := range targetPath {
 			traversed = append(traversed, path)
-			if v, ok := m[path]; ok {
-				if _, ok = v.(struct{}); ok {
+			last := i == len(targetPath)-1
+			if v, exists := m[path]; exists {
+				sub, isMap := v.(map[string]any)
+				if !isMap || last {
+					// an existing terminal is a prefix of (or equal to) the new path, or the new path is a prefix of an existing one
 					return fmt.Errorf("two terminal field paths conflict for node %s: %v, %v", n.key, traversed, targetPath)
 				}
+				m = sub
+				continue
 			}
 
-			if i < len(targetPath)-1 {
-				m[path] = make(map[string]any)
-				m = m[path].(map[string]any)
-			} else {
+			if last {
 				m[path] = struct{}{}
+			} else {
+				sub := make(map[string]any)
+				m[path] = sub
+				m = sub
 			}
 		}
 	}
